@@ -45,7 +45,7 @@ pub fn run(tier: &str) -> ! {
 	let budget = Budget::new(if tier == "thorough" { 1500.0 } else { 150.0 });
 	run.set("rule", json!("(a) drop at every pipeline state: the reopen event (drop the handle, open again) is offered at every state of the graph search (commits still queued, logged, synced, half-applied log files, several log files pending); after it every column must show all accepted commits in order (one family has an index growth with reindex batches pending). (b) crash lower bound: every crash image of every edge (see C02) is judged with lo = number of commits whose log record had been fdatasync'ed before the crash point (derived from the sync operations actually observed in the I/O trace and the pipeline model): recovery must not fall behind it"));
 	run.assumptions = vec![
-		"stepping mode without background threads; the threaded drop is the loom engine's subject (not built in this revision)".into(),
+		"this part runs in stepping mode without background threads; the threaded drop is the loom part of the check (C03L, evidence C03-loom.json)".into(),
 		"process-crash model for (b); power loss is C12".into(),
 	];
 	super::run_scenarios(&mut run, &scenarios(tier), &budget);
